@@ -692,13 +692,13 @@ def adjust(pid, rng, pcfg, pairs=None):
         # nothing but the adapters shortens the reads, action trim, --revcomp: every shortened mate then stands for an applied match
         b.revcomp, b.action = True, "trim"
         b.cuts, pcfg.cuts2, b.qcut, pcfg.qcut2, b.nextseq, b.length, pcfg.length2, b.trim_n, b.poly_a = (), (), None, None, None, None, None, False, False
-    if pid == "C05" and b.adapters and pcfg.adapters2 and not pcfg.pair_adapters and not pcfg.combinatorial and rng.random() < 0.2:
+    if pid == "C05" and b.adapters and pcfg.adapters2 and not pcfg.pair_adapters and not pcfg.combinatorial and rng.random() < 0.25:
         # both sides have adapters, nothing else shortens the reads, untrimmed pairs are redirected or discarded (mode 'any'), with --revcomp
-        b.revcomp, b.action, b.demux = rng.random() < 0.7, "trim", False
+        b.revcomp, b.action, b.demux = rng.random() < 0.85, "trim", False
         b.cuts, pcfg.cuts2, b.qcut, pcfg.qcut2, b.nextseq, b.length, pcfg.length2, b.trim_n, b.poly_a = (), (), None, None, None, None, None, False, False
         pcfg.pair_filter = rng.choice([None, "any"])
         b.discard_trimmed = False
-        if rng.random() < 0.5:
+        if rng.random() < 0.75:   # (redirected pairs can be inspected, discarded ones cannot)
             b.untrimmed_output, b.discard_untrimmed = True, False
         else:
             b.untrimmed_output, b.discard_untrimmed = False, True
